@@ -161,6 +161,105 @@ func ruleInfixViaLoop(p *Program, r *Reporter) {
 		r.OkNT(key, p.Pos(built[nt][0].Pos()), "built by "+fnNames(p, built[nt])+" only")
 	}
 
+	// the loop that applies the operators goes on or stops on what comes next —
+	// the next token and the binding powers —, never on the token the operand
+	// happened to end with
+	if a, _ := p.Anchors(); a != nil && a.parseExpr != nil {
+		pe := a.parseExpr
+		readsCur := func(v ssa.Value) bool {
+			seen := map[ssa.Value]bool{}
+			var w func(v ssa.Value, d int) bool
+			w = func(v ssa.Value, d int) bool {
+				if v == nil || seen[v] || d > 6 {
+					return false
+				}
+				seen[v] = true
+				switch x := v.(type) {
+				case *ssa.FieldAddr:
+					if k := fieldKey(x); k == "parser.Parser.curToken" || k == "parser.Parser.prevToken" {
+						return true
+					}
+					return w(x.X, d+1)
+				case *ssa.UnOp:
+					return w(x.X, d+1)
+				case *ssa.BinOp:
+					return w(x.X, d+1) || w(x.Y, d+1)
+				case *ssa.Field:
+					return w(x.X, d+1)
+				case *ssa.Call:
+					cal := x.Call.StaticCallee()
+					if cal != nil && recvNamed(cal, "parser", "Parser") && len(sigResults(cal)) == 1 && isBoolType(sigResults(cal)[0]) {
+						// what the helper's answer depends on: its branch conditions and
+						// the values it returns (a token read for an error text does not
+						// decide anything)
+						for _, b := range cal.Blocks {
+							switch t := terminator(b).(type) {
+							case *ssa.If:
+								if w(t.Cond, d+1) {
+									return true
+								}
+							case *ssa.Return:
+								if len(t.Results) == 1 && w(t.Results[0], d+1) {
+									return true
+								}
+							}
+						}
+					}
+				case *ssa.Phi:
+					for _, e := range x.Edges {
+						if w(e, d+1) {
+							return true
+						}
+					}
+				}
+				return false
+			}
+			return w(v, 0)
+		}
+		bad := token.NoPos
+		nLoops := 0
+		for _, h := range pe.Blocks {
+			var latches []*ssa.BasicBlock
+			for _, pb := range h.Preds {
+				if h.Dominates(pb) {
+					latches = append(latches, pb)
+				}
+			}
+			if len(latches) == 0 {
+				continue
+			}
+			nLoops++
+			body := map[*ssa.BasicBlock]bool{h: true}
+			work := append([]*ssa.BasicBlock{}, latches...)
+			for len(work) > 0 {
+				x := work[len(work)-1]
+				work = work[:len(work)-1]
+				if body[x] {
+					continue
+				}
+				body[x] = true
+				work = append(work, x.Preds...)
+			}
+			for x := range body {
+				iff, ok := terminator(x).(*ssa.If)
+				if !ok {
+					continue
+				}
+				leaves := false
+				for _, sc := range x.Succs {
+					if !body[sc] {
+						leaves = true
+					}
+				}
+				if leaves && readsCur(iff.Cond) && !bad.IsValid() {
+					bad = posOr(iff.Cond.Pos(), firstPos(x))
+				}
+			}
+		}
+		if nLoops > 0 {
+			r.Check(!bad.IsValid(), p.FnName(pe)+"/the operator loop stops on the next token and the binding powers only", p.Pos(posOr(bad, pe.Pos())), "no way out of the loop depends on the current or the previous token", "the loop that applies the operators is left on a condition that reads the current (or previous) token — the last token of the operand as it was written: with redundant parentheses round the operand that token is `)`, so `(len)(\"abc\")` is no longer the call that `len(\"abc\")` is")
+		}
+	}
 	// the left operand is judged by the tree
 	for _, f := range fns {
 		key := p.FnName(f) + "/judges its left operand by the tree, not by the previous token"
@@ -3051,4 +3150,203 @@ func builtinName(reg map[string]*ssa.Function, f *ssa.Function) (string, bool) {
 		}
 	}
 	return "", false
+}
+
+// ---------------------------------------------------------------------------
+// R-NUMARGS
+
+func init() {
+	register(&Rule{ID: "R-NUMARGS", Floor: 2, Run: ruleNumArgs,
+		Text: "What a built-in compares as a number it has tested to be one: every argument that a registered built-in hands to the numeric comparison of the built-ins (the function of two objects that compares them by value) is, at the call, known to be a number — a numeric test of that very argument holds on every path to the call, or a loop over all the arguments has returned for any that is not a number.  A bound that is never tested is taken for 0 by the comparison: between(5, -5, \"10\") answers false where null is due."})
+}
+
+func ruleNumArgs(p *Program, r *Reporter) {
+	less := numericLessFn(p)
+	if less == nil {
+		r.Undecided("numeric comparison", "-", "cannot find the function that compares two numbers by value")
+		return
+	}
+	reg := registeredBuiltins(p)
+	typeConst := objectTypeConsts(p)
+	var names []string
+	for nm := range reg {
+		names = append(names, nm)
+	}
+	sort.Strings(names)
+	n := 0
+	for _, nm := range names {
+		fn, _ := sharedImpl(reg[nm])
+		if fn == nil || len(fn.Params) == 0 || len(fn.Blocks) == 0 {
+			continue
+		}
+		args := ssa.Value(fn.Params[0])
+		// a loop over all the arguments that returns for a non-number: its exit
+		// dominates what follows
+		allTested := func(at *ssa.BasicBlock) bool {
+			for _, h := range fn.Blocks {
+				var latches []*ssa.BasicBlock
+				for _, pb := range h.Preds {
+					if h.Dominates(pb) {
+						latches = append(latches, pb)
+					}
+				}
+				if len(latches) == 0 || !h.Dominates(at) {
+					continue
+				}
+				iff, ok := terminator(h).(*ssa.If)
+				if !ok {
+					continue
+				}
+				bo, ok := iff.Cond.(*ssa.BinOp)
+				if !ok || bo.Op != token.LSS {
+					continue
+				}
+				lc, isLen := isBuiltinCall(bo.Y, "len")
+				if !isLen || !isArgsVal(lc.Call.Args[0], args) {
+					continue
+				}
+				// the body tests the element's type against both numeric types and returns otherwise
+				body := map[*ssa.BasicBlock]bool{}
+				work := append([]*ssa.BasicBlock{}, latches...)
+				for len(work) > 0 {
+					x := work[len(work)-1]
+					work = work[:len(work)-1]
+					if body[x] || x == h {
+						continue
+					}
+					body[x] = true
+					work = append(work, x.Preds...)
+				}
+				seenT := map[string]bool{}
+				viaHelper := false
+				for x := range body {
+					for _, ins := range x.Instrs {
+						if b2, ok := ins.(*ssa.BinOp); ok && (b2.Op == token.NEQ || b2.Op == token.EQL) {
+							if c, ok := b2.Y.(*ssa.Const); ok && c.Value != nil && c.Value.Kind() == constant.String {
+								seenT[typeConst[constant.StringVal(c.Value)]] = true
+							}
+						}
+						if c, ok := ins.(*ssa.Call); ok && c.Call.StaticCallee() != nil && isNumericTest(c.Call.StaticCallee(), typeConst) {
+							viaHelper = true
+						}
+					}
+				}
+				// the loop is left to "at" only through the header's exit
+				exitsOnlyAtHeader := true
+				for x := range body {
+					for _, sc := range x.Succs {
+						if !body[sc] && sc != h {
+							if _, isRet := terminator(sc).(*ssa.Return); !isRet {
+								exitsOnlyAtHeader = false
+							}
+						}
+					}
+				}
+				if (seenT["Integer"] && seenT["Float"] || viaHelper) && exitsOnlyAtHeader && !body[at] {
+					return true
+				}
+			}
+			return false
+		}
+		// a numeric test of the same argument on every path
+		testedAt := func(k int64, at *ssa.BasicBlock) bool {
+			for _, b := range fn.Blocks {
+				iff, ok := terminator(b).(*ssa.If)
+				if !ok || len(b.Succs) != 2 {
+					continue
+				}
+				cond, neg := iff.Cond, false
+				if u, ok := cond.(*ssa.UnOp); ok && u.Op == token.NOT {
+					cond, neg = u.X, true
+				}
+				c, ok := cond.(*ssa.Call)
+				if !ok || c.Call.StaticCallee() == nil || !isNumericTest(c.Call.StaticCallee(), typeConst) || len(c.Call.Args) != 1 {
+					continue
+				}
+				if kk, ok := argElem(c.Call.Args[0], args); !ok || kk != k {
+					continue
+				}
+				good := b.Succs[0]
+				if neg {
+					good = b.Succs[1]
+				}
+				if len(good.Preds) == 1 && (good == at || good.Dominates(at)) {
+					return true
+				}
+				// `if !isNumber(a) || !isNumber(b) { return }`: the bad side returns,
+				// the other side (several predecessors) dominates
+				bad := b.Succs[1]
+				if neg {
+					bad = b.Succs[0]
+				}
+				if allReturn(bad, 3) && b.Dominates(at) && !blockReachesBlock(bad, at) {
+					return true
+				}
+			}
+			return false
+		}
+		nth := 0
+		for _, b := range fn.Blocks {
+			for _, ins := range b.Instrs {
+				c, ok := ins.(*ssa.Call)
+				if !ok || c.Call.StaticCallee() != less {
+					continue
+				}
+				for ai, a := range c.Call.Args {
+					k, isArg := argElem(a, args)
+					if !isArg {
+						continue
+					}
+					n++
+					nth++
+					key := fmt.Sprintf("built-in %s/operand %d of numeric comparison %d is an argument known to be a number", nm, ai+1, (nth+1)/2)
+					if allTested(b) || testedAt(k, b) {
+						r.OkNT(key, p.Pos(c.Pos()), fmt.Sprintf("args[%d] is tested to be a number on every path to the comparison", k))
+					} else {
+						r.Fail(key, p.Pos(c.Pos()), fmt.Sprintf("args[%d] reaches the numeric comparison without a test that it is a number on every path: the comparison takes anything else for 0, so the built-in answers true or false where null is due — between(5, -5, \"10\") is false", k))
+					}
+				}
+			}
+		}
+	}
+	if n == 0 {
+		r.Undecided("numeric comparisons", "-", "no registered built-in hands an argument to the numeric comparison")
+	}
+}
+
+// allReturn: every path from b ends in a return within a few blocks.
+func allReturn(b *ssa.BasicBlock, depth int) bool {
+	if _, ok := terminator(b).(*ssa.Return); ok {
+		return true
+	}
+	if depth == 0 || len(b.Succs) == 0 {
+		return false
+	}
+	for _, s := range b.Succs {
+		if !allReturn(s, depth-1) {
+			return false
+		}
+	}
+	return true
+}
+
+func blockReachesBlock(from, to *ssa.BasicBlock) bool {
+	seen := map[*ssa.BasicBlock]bool{}
+	var w func(x *ssa.BasicBlock) bool
+	w = func(x *ssa.BasicBlock) bool {
+		if x == to {
+			return true
+		}
+		if seen[x] {
+			return false
+		}
+		seen[x] = true
+		for _, s := range x.Succs {
+			if w(s) {
+				return true
+			}
+		}
+		return false
+	}
+	return w(from)
 }
